@@ -22,6 +22,42 @@ import (
 	"sync"
 )
 
+// A triage entry explains why a surviving mutant is not a hole in the contracts (equivalent under the contracts'
+// assumptions, dead branch, or behaviour no property speaks about).  Matching is by function, operator and the
+// mutated text (prefix), never by line.
+type triageEntry struct {
+	Func   string `json:"func"`
+	Op     string `json:"op,omitempty"`     // empty: any operator
+	Before string `json:"before,omitempty"` // prefix of the mutated source text; empty: any
+	Reason string `json:"reason"`
+}
+
+func loadTriage() []triageEntry {
+	data, err := os.ReadFile(filepath.Join(verifRoot, "selftest", "mutation_triage.json"))
+	if err != nil {
+		return nil
+	}
+	var t []triageEntry
+	json.Unmarshal(data, &t)
+	return t
+}
+
+func triaged(t []triageEntry, m *srcMutant) string {
+	for _, e := range t {
+		if e.Func != m.Func {
+			continue
+		}
+		if e.Op != "" && e.Op != m.Op {
+			continue
+		}
+		if e.Before != "" && !strings.HasPrefix(m.Before, e.Before) {
+			continue
+		}
+		return e.Reason
+	}
+	return ""
+}
+
 type srcMutant struct {
 	File       string `json:"file"`
 	Line       int    `json:"line"`
@@ -31,6 +67,7 @@ type srcMutant struct {
 	After      string `json:"after"`
 	Status     string `json:"status"` // killed | survived | invalid
 	KilledBy   string `json:"killed_by,omitempty"`
+	Triage     string `json:"triage,omitempty"`
 	start, end int
 	repl       string
 	units      []string
@@ -301,7 +338,14 @@ func cmdMutate(args []string) int {
 	wg.Wait()
 	counts := map[string]int{}
 	var outb strings.Builder
-	for _, m := range all {
+	tri := loadTriage()
+	for i := range all {
+		m := &all[i]
+		if m.Status == "survived" {
+			if r := triaged(tri, m); r != "" {
+				m.Status, m.Triage = "survived-triaged", r
+			}
+		}
 		counts[m.Status]++
 		data, _ := json.Marshal(m)
 		outb.Write(data)
@@ -313,6 +357,28 @@ func cmdMutate(args []string) int {
 	if *outF != "" {
 		os.WriteFile(*outF, []byte(outb.String()), 0o644)
 	}
-	fmt.Printf("mutants: %d killed, %d survived, %d invalid (do not compile)\n", counts["killed"], counts["survived"], counts["invalid"])
+	if *fileF == "" && *funcF == "" && *limit == 0 && !*anyOb && len(ops) == 0 {
+		// a complete sweep: keep its summary next to the triage file
+		byOp := map[string]map[string]int{}
+		var open []map[string]interface{}
+		for _, m := range all {
+			if byOp[m.Op] == nil {
+				byOp[m.Op] = map[string]int{}
+			}
+			byOp[m.Op][m.Status]++
+			if m.Status == "survived" {
+				open = append(open, map[string]interface{}{"file": m.File, "func": m.Func, "op": m.Op, "before": m.Before, "after": m.After})
+			}
+		}
+		rep := map[string]interface{}{
+			"mutants": len(all), "killed": counts["killed"], "invalid_do_not_compile": counts["invalid"],
+			"survived_explained_in_mutation_triage": counts["survived-triaged"], "survived_unexplained": counts["survived"],
+			"units_mutated": len(baseline), "by_operator": byOp, "unexplained": open,
+			"rule": "a mutant is killed when an obligation on the expectation lists of the checks stops being discharged, vanishes, or the contract no longer applies; only the mutated function and its literals are re-verified (modular verification)",
+		}
+		data, _ := json.MarshalIndent(rep, "", " ")
+		os.WriteFile(filepath.Join(verifRoot, "selftest", "mutation_report.json"), append(data, '\n'), 0o644)
+	}
+	fmt.Printf("mutants: %d killed, %d survived without an explanation, %d survived and explained in selftest/mutation_triage.json, %d invalid (do not compile)\n", counts["killed"], counts["survived"], counts["survived-triaged"], counts["invalid"])
 	return 0
 }
